@@ -133,6 +133,9 @@ private theorem type_lt (m : Msg) : m.type < 256 := by
   cases m <;> simp [Msg.type, tSessInit, tSessTerm, tXferSegment, tXferAck, tXferRefuse, tKeepalive,
     tMsgReject]
 
+private theorem known_type (m : Msg) (hc : m.isContact = false) : knownType m.type = true := by
+  cases m <;> first | (simp [Msg.isContact] at hc; done) | rfl
+
 private theorem u8_eq (n : Nat) (h : n < 256) : u8 n = [UInt8.ofNat n] := by
   simp [u8, beBytes, Nat.mod_eq_of_lt h]
 
@@ -157,7 +160,7 @@ theorem C07_probe_complete (m : Msg) (r : Bytes) (hwf : m.WF) :
       cases m <;> first | rfl | simp [Msg.isContact] at hc'
     rw [henc, u8_eq _ (type_lt m)]
     simp only [hc', Bool.not_false, probe, if_true, List.cons_append, List.nil_append,
-      ofNat_toNat _ (type_lt m)]
+      ofNat_toNat _ (type_lt m), known_type m hc', Bool.not_true, Bool.false_eq_true, if_false]
     rw [parse_body m r hwf hc']
     simp
     omega
@@ -200,7 +203,7 @@ theorem C07_probe_prefix (m : Msg) (p : Bytes) (hwf : m.WF) (hp : p <+: encode m
       have hp' : p' <+: m.body := (List.cons_prefix_cons.mp hp).2
       have hne' : p' ≠ m.body := by intro e; exact hne (by rw [ht, e])
       subst ht
-      simp only [ofNat_toNat _ (type_lt m)]
+      simp only [ofNat_toNat _ (type_lt m), known_type m hc', Bool.not_true, Bool.false_eq_true, if_false]
       have hfull := parse_body m [] hwf hc'
       simp only [List.append_nil] at hfull
       obtain ⟨u, hu, _, hpre⟩ := good_parseBody m.type m.body m [] hfull
@@ -219,18 +222,21 @@ private theorem probe_got_inv {c : Bool} {b : Bytes} {m : Msg} {n : Nat}
     | cons t rest =>
       simp only at h
       split at h
-      · rename_i m' r hpb
-        simp only [Probe.got.injEq] at h
-        obtain ⟨rfl, rfl⟩ := h
-        obtain ⟨u, hu, hext, _⟩ := good_parseBody _ _ _ _ hpb
-        subst hu
-        refine ⟨by simp; omega, by simp, ?_⟩
-        intro x
-        simp only [probe, if_true, List.cons_append, List.append_assoc]
-        rw [hext (r ++ x)]
-        simp
-        omega
       · simp at h
+      · rename_i hk
+        split at h
+        · rename_i m' r hpb
+          simp only [Probe.got.injEq] at h
+          obtain ⟨rfl, rfl⟩ := h
+          obtain ⟨u, hu, hext, _⟩ := good_parseBody _ _ _ _ hpb
+          subst hu
+          refine ⟨by simp; omega, by simp, ?_⟩
+          intro x
+          simp only [probe, if_true, List.cons_append, List.append_assoc, hk]
+          rw [hext (r ++ x)]
+          simp
+          omega
+        · simp at h
   | false =>
     simp only [Bool.false_eq_true, if_false] at h
     split at h
@@ -274,7 +280,7 @@ theorem C07_probe_mono (c : Bool) (b x : Bytes) (m : Msg) (n : Nat) (h : probe c
     probe c (b ++ x) = .got m n ∧ 0 < n ∧ n ≤ b.length :=
   ⟨(probe_got_inv h).2.2 x, (probe_got_inv h).1, (probe_got_inv h).2.1⟩
 
-/-- A contact header rejected for magic/version stays rejected. -/
+/-- A contact header rejected for magic/version, or an unknown message type, stays rejected. -/
 theorem C07_probe_bad_mono (c : Bool) (b x : Bytes) (h : probe c b = .bad) :
     probe c (b ++ x) = .bad := by
   unfold probe at h ⊢
@@ -283,7 +289,12 @@ theorem C07_probe_bad_mono (c : Bool) (b x : Bytes) (h : probe c b = .bad) :
     simp only [if_true] at h
     cases b with
     | nil => simp at h
-    | cons t rest => simp only at h; split at h <;> simp at h
+    | cons t rest =>
+      simp only at h
+      split at h
+      · rename_i hk
+        simp only [if_true, List.cons_append, hk]
+      · split at h <;> simp at h
   | false =>
     simp only [Bool.false_eq_true, if_false] at h ⊢
     split at h
